@@ -346,6 +346,40 @@ def _matrix(V, cfg, name, n):
     return wrap(A) if V.symbolic else A
 
 
+def det(M):
+    """Determinant by Laplace expansion (n <= 4), on symbolic or float entries."""
+    M = np.asarray(M)
+    n = M.shape[0]
+    if n == 1:
+        return M[0, 0]
+    if n == 2:
+        return M[0, 0] * M[1, 1] - M[0, 1] * M[1, 0]
+    tot = 0
+    for j in range(n):
+        minor = np.delete(np.delete(M, 0, axis=0), j, axis=1)
+        tot = tot + ((-1) ** j) * M[0, j] * det(minor)
+    return tot
+
+
+def assume_nonsingular(V, M, what="matrix"):
+    """Assume det(M) != 0; prefer well-conditioned witnesses (|det| >= 1/8) for the replay."""
+    if not V.symbolic:
+        return
+    d = det(M)
+    if isinstance(d, C):
+        m2 = d.re * d.re + d.im * d.im
+        V.assume(m2 > 0, "%s is non-singular" % what)
+        pref = (m2 >= R.of("1/64"))
+    else:
+        V.assume(d != 0, "%s is non-singular" % what)
+        pref = (d * d >= R.of("1/64"))
+    c = V.c
+    if not hasattr(c, "witness_prefs"):
+        c.witness_prefs = []
+    if isinstance(pref, SB):
+        c.witness_prefs.append(pref.t)
+
+
 def _solver_for(V, cfg):
     """Symbolic mode: contract oracle as the inner solver (C05 covers the real solvers). Concrete: auto."""
     if V.symbolic:
@@ -361,6 +395,7 @@ def b_linsolve(V, cfg):
     A = _matrix(V, cfg, "A", n)
     cplx_rhs = cfg.get("cplx_rhs", cfg.get("cplx", False))
     shp = (n,) if nrhs == 0 else (n, nrhs)
+    assume_nonsingular(V, A, "A")
     xs = V.cplxs("xs", shp) if cplx_rhs else V.reals("xs", shp)       # pre-image: b := A @ xs
     b = A @ xs
     sparse = cfg.get("sparse", False)
@@ -384,6 +419,7 @@ def b_inverse(V, cfg):
     import pymoto as pym
     n = cfg.get("n", 2)
     A = _matrix(V, cfg, "A", n)
+    assume_nonsingular(V, A, "A")
     sA = pym.Signal("A", A)
     cplx = cfg.get("cplx", False)
 
@@ -419,6 +455,7 @@ def b_sysofeq(V, cfg):
     xp = V.reals("xp", shpp)
     Aff = A[np.ix_(free, free)]
     Afp = A[np.ix_(free, pres)]
+    assume_nonsingular(V, Aff, "A_ff")
     bf = Aff @ xf + Afp @ xp
     Aval = _mk_sparse(V, A) if cfg.get("sparse", True) else A
     sA, sb, sx = pym.Signal("A", Aval), pym.Signal("bf", bf), pym.Signal("xp", xp)
@@ -446,6 +483,7 @@ def b_statcond(V, cfg):
     A = _matrix(V, dict(cfg, mclass="symmetric"), "A", n)
     X = V.reals("X", (len(free), len(main)))
     Aff = A[np.ix_(free, free)]
+    assume_nonsingular(V, Aff, "A_ff")
     Afm = Aff @ X
     A = np.array(A, dtype=object if V.symbolic else float, copy=True)
     for a, fi in enumerate(free):
@@ -547,27 +585,27 @@ def module_grid(tier):
     # overhang
     for d2 in ("+y", "y-", "+x", "-x"):
         add("overhang", "2x2-%s" % d2, mesh=(2, 2, 0), direction=d2)
-    add("overhang", "3x2-vec", mesh=(3, 2, 0), direction=[0.0, 1.0])
     add("overhang", "2x3-unit", mesh=(2, 3, 0), direction=[0.0, 1.0], unit_exponents=True)
-    add("overhang", "3x3-unit", mesh=(3, 3, 0), direction=[1.0, 0.0], unit_exponents=True)
     add("overhang", "3x1-onelayer", mesh=(3, 1, 0), direction=[0.0, 1.0])
-    add("overhang", "2x2x2-z", mesh=(2, 2, 2), direction=[0.0, 0.0, 1.0])
     if not q:
+        add("overhang", "3x2-vec", mesh=(3, 2, 0), direction=[0.0, 1.0])
+        add("overhang", "3x3-unit", mesh=(3, 3, 0), direction=[1.0, 0.0], unit_exponents=True)
+        add("overhang", "2x2x2-z", mesh=(2, 2, 2), direction=[0.0, 0.0, 1.0])
         add("overhang", "2x2x2-mx-9", mesh=(2, 2, 2), direction=[-1.0, 0.0, 0.0], nsampling=9)
         add("overhang", "4x3-unit", mesh=(4, 3, 0), direction=[0.0, -1.0], unit_exponents=True)
         add("overhang", "2x2x3-unit", mesh=(2, 2, 3), direction=[0.0, 0.0, 1.0], unit_exponents=True)
     # linear algebra
     for n in ([2, 3] if q else [2, 3, 4]):
         for sparse in (False, True):
-            for lda in (False, True):
+            for lda in ((False,) if q else (False, True)):
                 add("linsolve", "n%d-%s-%s" % (n, "sp" if sparse else "de", "lda" if lda else "nolda"), n=n, sparse=sparse, lda=lda)
-    add("linsolve", "n2-sym", n=2, mclass="symmetric", lda=True)
-    add("linsolve", "n2-symflag", n=2, mclass="symmetric", lda=True, flags=dict(symmetric=True))
+    add("linsolve", "n2-sym", n=2, mclass="symmetric", lda=not q)
+    add("linsolve", "n2-symflag", n=2, mclass="symmetric", lda=not q, flags=dict(symmetric=True))
     add("linsolve", "n2-cplx", n=2, cplx=True, lda=False)
-    add("linsolve", "n2-cplx-lda", n=2, cplx=True, lda=True)
-    add("linsolve", "n2-herm", n=2, cplx=True, mclass="hermitian", lda=True)
-    add("linsolve", "n2-csym", n=2, cplx=True, mclass="symmetric", lda=True)
-    add("linsolve", "n2-2rhs", n=2, nrhs=2, lda=True)
+    add("linsolve", "n2-cplx-lda", n=2, cplx=True, lda=not q)
+    add("linsolve", "n2-herm", n=2, cplx=True, mclass="hermitian", lda=not q)
+    add("linsolve", "n2-csym", n=2, cplx=True, mclass="symmetric", lda=not q)
+    add("linsolve", "n2-2rhs", n=2, nrhs=2, lda=not q)
     add("linsolve", "n2-sp-2rhs", n=2, nrhs=2, sparse=True, lda=False)
     add("linsolve", "n2-cplxrhs", n=2, cplx_rhs=True, lda=False)
     for n in ([2] if q else [2, 3]):
